@@ -267,7 +267,8 @@ fn exec_iter_script<T: Tbl>(ctx: &mut Ctx, ev: &Ev) {
             None => return,
         }
     };
-    let want = ip::model_script(n, start_blocks, &script);
+    let expect = ip::expect_at(ip::Pos::new(n, start_blocks), &script);
+    let want = expect.obs.clone();
     let huge = script.iter().any(|(k, a)| matches!(*k, ip::NTH | ip::SKIP_NEXT | ip::STEP_BY3 | ip::TAKE_COUNT) && *a >= (1u64 << 31));
     let ends = want.iter().any(|o| matches!(o, ip::Obs::Item(None)));
     let class = format!("{}{}{}", if fresh { "fresh" } else { "positioned" }, if huge { "+huge-arg" } else { "" }, if ends { "+reaches-end" } else { "" });
@@ -293,7 +294,11 @@ fn exec_iter_script<T: Tbl>(ctx: &mut Ctx, ev: &Ev) {
             }
         }
     }
-    let r = guard(|| T::t_iter_script(n, start.as_ref(), &script));
+    if std::env::var_os("VMON_TRACE").is_some() {
+        // debugging aid: which script is about to run (the last line printed by a thread that does not return)
+        eprintln!("TRACE {:?} {} n={} fresh={} start={} script=[{}]", std::thread::current().id(), T::ty(), n, fresh, hex_of_blocks(start_blocks), ip::describe_script(&script));
+    }
+    let r = guard(|| T::t_iter_script(n, start.as_ref(), &script, Some(&expect)));
     match r {
         Outcome::Returned(got) => {
             ctx.checked("iter-methods-agree-with-sequence", got.len() as u64);
